@@ -52,7 +52,8 @@ def make_node(i, nd):
         return ConnectorDegreeGroupingNode(name)
     if t == 'dv':
         if nd['disc']:
-            return DesignVariableNode(name, options=list(range(nd['k'])))
+            # option VALUES are user data; they deliberately overlap with, but differ from, the option indices
+            return DesignVariableNode(name, options=[i+1 for i in range(nd['k'])])
         return DesignVariableNode(name, bounds=(nd['lo']/UNIT, nd['hi']/UNIT))
     if t == 'met':
         return MetricNode(name, direction=(nd['mdir'] or None), ref=(nd['ref']/UNIT if nd['hasref'] else None),
